@@ -16,14 +16,23 @@ def dotNats (s : String) : Option (List Nat) :=
 def showDots (ns : List Nat) : String :=
   if ns.isEmpty then "-" else ".".intercalate (ns.map toString)
 
-/-- `<hex>/<fd ids joined by .>` -/
-def parseFrame (s : String) : Option Frame :=
+/-- `<hex>/<fd ids joined by .>` or `<hex>/<fd ids>@<index of the byte the descriptors ride on>` -/
+def parseFrame (s : String) : Option (Frame × Nat) :=
   match s.splitOn "/" with
   | [h, f] =>
-    match parseHex h, dotNats f with
-    | some b, some fds => some { bytes := b, fds := fds }
-    | _, _ => none
+    let (fpart, pos) := match f.splitOn "@" with
+      | [a, b] => (a, b.toNat?)
+      | _ => (f, some 0)
+    match parseHex h, dotNats fpart, pos with
+    | some b, some fds, some k => some ({ bytes := b, fds := fds }, k)
+    | _, _, _ => none
   | _ => none
+
+/-- the peer's placement of the descriptors, as the request line says (frames are distinct: serials differ) -/
+def placement (l : List (Frame × Nat)) (f : Frame) : Nat :=
+  match l.find? (fun x => x.1 == f) with
+  | some x => x.2
+  | none => 0
 
 /-- `a<n>`: the peer sends the next n bytes; `r<k>` / `m<k>`: read_once / guarded read_once whose recvmsg
     gets `k` bytes from the kernel (0: EAGAIN); `g`: get_next_message(Nonblock), every recvmsg of its
@@ -78,7 +87,7 @@ def handle : List String → String
   | ["c09.run", frames, script] =>
     match (frames.splitOn "|").mapM parseFrame, (script.splitOn ",").mapM parseStep with
     | some fs, some acts =>
-      let obs := exec State.empty (World.init fs) acts []
+      let obs := exec State.empty (World.init (placement fs) (fs.map Prod.fst)) acts []
       if obs.isEmpty then "-" else ";".intercalate obs
     | _, _ => "bad-op"
   | _ => "bad-op"
